@@ -11,6 +11,7 @@
 import Proofs.DdsFixpoint
 import Proofs.DdsSamples
 import Proofs.DdsQuote
+import Proofs.DdsPrintable
 namespace Pydap.C07
 open Pydap Pydap.Dds
 
@@ -20,6 +21,14 @@ open Pydap Pydap.Dds
 theorem C07_parse_print (d : Dataset) (s : Text) (hwf : WFds d) (hp : printDs d = .ok s) :
     parseDds s = .ok (normDs d) :=
   parse_print d s hp hwf
+
+/-- The hypothesis `printDs d = .ok s` of `C07_parse_print` is not a restriction beyond the type table: the
+    printer succeeds on every tree whose dtypes have an entry in `NUMPY_TO_DAP2_TYPEMAP` (every DAP2 type) and
+    whose grids have an array; hence such a well-formed dataset always prints AND parses back to `normDs d`. -/
+theorem C07_print_then_parse (d : Dataset) (hwf : WFds d) (hty : PrintableL d.kids) :
+    ∃ s, printDs d = .ok s ∧ parseDds s = .ok (normDs d) := by
+  obtain ⟨s, hs⟩ := printDs_ok d hty
+  exact ⟨s, hs, parse_print d s hs hwf⟩
 
 /-- What `norm` does to a base variable outside sequences whose dimension names (if any) are one per
     extent: name and shape are kept, dimension names are kept, an unnamed 1-d array gets its own
@@ -102,6 +111,10 @@ theorem C07_foreign (d : FDataset) (hwf : FWFds d) : parseDds (ftextDs d) = .ok 
 -- and a grid is in the domain of `C07_parse_print`, `C07_fixpoint_partial`, `C07_print_parse_print_partial`
 example : WFds sample ∧ ColsL sample.kids 0 ∧ ∃ s, printDs sample = .ok s :=
   ⟨sample_wf, sample_cols, sample_prints⟩
+
+example : PrintableL sample.kids := by
+  simp [sample, PrintableL, PrintableT, TyKnown]
+  decide
 
 example : ∃ b : BaseV, (b.dims = [] ∨ b.dims.length = b.shape.length) ∧ b.shape.length = 1 :=
   ⟨⟨['c'], ['i'], [4], []⟩, Or.inl rfl, rfl⟩
